@@ -314,7 +314,7 @@ def gen_map_xml(rng, tier):
             t = random_tree(rng)
             text = S.to_xml(t)
         t = S.from_xml(text)  # what an independent XML reader sees in the text
-        yield {"root": t, "text": text, "abs": abs_table(S.tree_strings(t))}
+        yield {"root": t, "text": text, "abs": abs_table(S.tree_strings(t)), "regular": i % 3 == 0}
 
 
 def impl_map_xml(a):
@@ -360,7 +360,7 @@ def gen_xml_docs(rng, tier):
             m = S.gen_xml_model(rng, hetero=0.3, nil=0.2, empty=0.2)
             trees = [S.instance(rng, m) for _ in range(rng.randint(1, 4))]
             texts = [S.to_xml(t, pretty=rng.random() < 0.3) for t in trees]
-        yield xml_args([S.from_xml(t) for t in texts], texts)
+        yield dict(xml_args([S.from_xml(t) for t in texts], texts), regular=i % 4 != 3)
 
 
 def impl_xml_docs(a):
@@ -408,7 +408,7 @@ def gen_map_json(rng, tier):
         yield {"data": S.enc_json(h), "raw": h, "name": "doc", "abs": abs_table(S.json_strings(h))}
     for i in range(n_cases(tier, 300, 8000)):
         d = S.json_instance(rng, S.gen_json_model(rng, hetero=0.3)) if i % 2 else random_json(rng)
-        yield {"data": S.enc_json(d), "raw": d, "name": "doc", "abs": abs_table(S.json_strings(d))}
+        yield {"data": S.enc_json(d), "raw": d, "name": "doc", "abs": abs_table(S.json_strings(d)), "regular": bool(i % 2)}
 
 
 def impl_map_json(a):
@@ -430,7 +430,7 @@ def gen_json_docs(rng, tier):
         else:
             m = S.gen_json_model(rng, hetero=0.3)
             docs = [S.json_instance(rng, m) for _ in range(rng.randint(1, 4))]
-        yield {"docs": [S.enc_json(d) for d in docs], "raw": docs, "name": "doc", "abs": abs_table(s for d in docs for s in S.json_strings(d))}
+        yield {"docs": [S.enc_json(d) for d in docs], "raw": docs, "name": "doc", "abs": abs_table(s for d in docs for s in S.json_strings(d)), "regular": i % 3 != 2}
 
 
 def impl_json_docs(a):
@@ -510,6 +510,31 @@ def strict_config():
     return ParserConfig(fail_on_unknown_properties=True, fail_on_unknown_attributes=True, fail_on_converter_warnings=True)
 
 
+def constraint_violation(obj, path="$"):
+    """the parsed object against the occurrence bounds its own generated class declares"""
+    import dataclasses
+
+    if not dataclasses.is_dataclass(obj) or isinstance(obj, type):
+        return None
+    for f in dataclasses.fields(obj):
+        v = getattr(obj, f.name)
+        md = f.metadata
+        if isinstance(v, list):
+            if md.get("type") in ("Element", None) and "max_occurs" in md and len(v) > md["max_occurs"]:
+                return f"{path}.{f.name}: {len(v)} items, the generated field declares max_occurs={md['max_occurs']}"
+            if md.get("type") == "Element" and len(v) < md.get("min_occurs", 0):
+                return f"{path}.{f.name}: {len(v)} items, the generated field declares min_occurs={md['min_occurs']}"
+            for i, x in enumerate(v):
+                r = constraint_violation(x, f"{path}.{f.name}[{i}]")
+                if r:
+                    return r
+        else:
+            r = constraint_violation(v, f"{path}.{f.name}")
+            if r:
+                return r
+    return None
+
+
 def oracle_xml(a):
     """the property on the real pipeline: classes from the samples, every sample parses strictly
     into the root class and serialises back to the same infoset"""
@@ -538,6 +563,9 @@ def oracle_xml(a):
                     obj = parser.from_string(text, roots[0])
             except Exception as e:  # noqa: BLE001
                 return f"sample {i} rejected: {type(e).__name__}: {str(e)[:200]}"
+            cv = constraint_violation(obj)
+            if cv:
+                return f"sample {i} breaks the bounds of the generated classes: {cv}"
             try:
                 out = XmlSerializer(context=ctx).render(obj)
             except Exception as e:  # noqa: BLE001
@@ -575,6 +603,9 @@ def oracle_json(a):
                     obj = parser.from_string(json.dumps(d), roots[0])
             except Exception as e:  # noqa: BLE001
                 return f"sample {i} rejected: {type(e).__name__}: {str(e)[:200]}"
+            cv = constraint_violation(obj)
+            if cv:
+                return f"sample {i} breaks the bounds of the generated classes: {cv}"
             try:
                 out = json.loads(JsonSerializer(context=ctx).render(obj))
             except Exception as e:  # noqa: BLE001
@@ -932,6 +963,8 @@ def covered_json(a, msg):
 def adapt_xml(op, a):
     if op in ("smp.e2e_xml",):
         return {"docs": a["docs"]}
+    if not a.get("regular"):
+        return None  # the property speaks about samples of a regular model only
     if op == "smp.xml_docs":
         return {"docs": a["texts"]}
     if op == "smp.map_xml":
@@ -939,13 +972,11 @@ def adapt_xml(op, a):
     return None
 
 
-def regular_enough(a):
-    return a is not None
-
-
 def adapt_json(op, a):
     if op == "smp.e2e_json":
         return {"docs": a["docs"]}
+    if not a.get("regular"):
+        return None
     if op == "smp.json_docs":
         return {"docs": a["raw"]}
     if op == "smp.map_json":
@@ -954,8 +985,8 @@ def adapt_json(op, a):
 
 
 ORACLES = [
-    Oracle("c13.xml_samples", gen_oracle_xml, oracle_xml, covered=covered_xml, from_ops=("smp.e2e_xml",), adapt=adapt_xml),
-    Oracle("c13.json_samples", gen_oracle_json, oracle_json, covered=covered_json, from_ops=("smp.e2e_json",), adapt=adapt_json),
+    Oracle("c13.xml_samples", gen_oracle_xml, oracle_xml, covered=covered_xml, from_ops=("smp.e2e_xml", "smp.xml_docs", "smp.map_xml"), adapt=adapt_xml),
+    Oracle("c13.json_samples", gen_oracle_json, oracle_json, covered=covered_json, from_ops=("smp.e2e_json", "smp.json_docs", "smp.map_json"), adapt=adapt_json),
 ]
 
 
